@@ -9,13 +9,17 @@
        order, dimension and rank vector, the sum over all indices of the cores to its right of
        X(ys)[s,0] * A(xs,ys)[r,0] * conj X(xs)[c,0]  -- i.e. the stacks are the contractions the
        projection P^H A P consists of, with the conjugate on the operator's ROW index.
-   NOT proved here (model + oracle-tape correspondence + side check only): the analogous closed form
-   of the LEFT stacks and the assembly  micro_op = P^H A P  from both (the driver glue of
-   Check/C07.v), monotonicity over whole sweeps, exactness at maximal ranks.  Known findings F16/F16b:
-   MALS with an active max_rank is not monotone. *)
+     - the LEFT environment, started from any environment L0 and pushed through a block of cores, is L0 contracted with
+       the transfer kernel of that block (sum over all indices of X(ys)[s,s'] A(xs,ys)[r,r'] conj X(xs)[c,c']);
+     - FRAME IDENTITY: the entry ((c,x,c'),(s,y,s')) of the micro matrix that sle.__construct_micro_matrix_als hands to the
+       solver equals  sum_{r,r'} Kernel_left[s,r,c] * A_i[r,x,y,r'] * RightProd[s',r',c'],  i.e. micro_op = P^H A P with
+       P the frame spanned by the solution cores left and right of position i (every order, position, dimension, rank).
+   NOT proved here (model + oracle-tape correspondence + side check only): the composition of these facts over whole
+   sweeps (monotone energy from sweep to sweep, fixed point, exactness at maximal ranks), the right-hand-side stacks and
+   the two-site (MALS) micro matrix.  Known findings F16/F16b: MALS with an active max_rank is not monotone. *)
 From Coq Require Import ZArith List Lia Arith.
 Import ListNotations.
-Require Import Ring Sums Matrix Core Chain TensordotProof Env EnvProof Galerkin.
+Require Import Ring Sums Matrix Core Chain TensordotProof Env EnvProof Galerkin FrameProof.
 Open Scope cr_scope.
 
 Theorem C07_galerkin_descent (R : cring) (N : nat) (A : nat -> nat -> R)
@@ -51,3 +55,22 @@ Example ex_galerkin_instance :
   let A : nat -> nat -> ZIring := fun i j => match i, j with 0%nat, 0%nat => (2, 0)%Z | 1%nat, 1%nat => (3, 0)%Z | 0%nat, 1%nat => (0, 1)%Z | 1%nat, 0%nat => (0, -1)%Z | _, _ => (0, 0)%Z end in
   (forall i j, (i < 2)%nat -> (j < 2)%nat -> A i j = cconj ZIring (A j i)).
 Proof. intros A i j Hi Hj. destruct i as [|[|i]]; destruct j as [|[|j]]; try lia; reflexivity. Qed.
+
+Theorem C07_left_stack (R : cring) (Xs As : list (core R)) (L0 : st3 R) fx fa s' r' c' :
+  length As = length Xs -> linked Xs fx -> linked As fa ->
+  a1 L0 = rl_of Xs fx -> a2 L0 = rl_of As fa -> a3 L0 = rl_of Xs fx ->
+  (s' < fx)%nat -> (r' < fa)%nat -> (c' < fx)%nat ->
+  f3 (lstack_from L0 Xs As) s' r' c' =
+  sum (a3 L0) (fun c => sum (a2 L0) (fun r => sum (a1 L0) (fun s => f3 L0 s r c * Kernel Xs As s r c s' r' c'))).
+Proof. exact (lstack_from_closed Xs As L0 fx fa s' r' c'). Qed.
+Print Assumptions C07_left_stack.
+
+Theorem C07_frame (R : cring) (Xp Ap Xs As : list (core R)) (A : core R) fx c x c' s y s' :
+  length Ap = length Xp -> linked Xp fx -> linked Ap (rl A) -> rl_of Xp fx = 1%nat -> rl_of Ap (rl A) = 1%nat ->
+  length As = length Xs -> linked Xs 1%nat -> linked As 1%nat -> rl_of As 1%nat = rr A ->
+  (c < fx)%nat -> (s < fx)%nat -> (c' < rl_of Xs 1)%nat -> (s' < rl_of Xs 1)%nat -> (x < md A)%nat -> (y < nd A)%nat ->
+  snd (micro_op_als (lstack_from one3 Xp Ap) (rstack Xs As) A fx (rl_of Xs 1%nat))
+      ((c * md A + x) * rl_of Xs 1%nat + c')%nat ((s * nd A + y) * rl_of Xs 1%nat + s')%nat =
+  sum (rl A) (fun r => sum (rr A) (fun r' => Kernel Xp Ap 0%nat 0%nat 0%nat s r c * g A r x y r' * RightProd Xs As s' r' c')).
+Proof. exact (frame_als Xp Ap Xs As A fx c x c' s y s'). Qed.
+Print Assumptions C07_frame.
